@@ -1,9 +1,437 @@
-//! stub
-use serde_json::Value;
-use crate::engine::Ctx;
-pub const RULE_C10: &str = "";
-pub const RULE_C11: &str = "";
-pub const ASSUMPTIONS_C10: &[&str] = &[];
-pub const ASSUMPTIONS_C11: &[&str] = &[];
-pub fn run(_ctx: &Ctx, _inv: bool) {}
-pub fn replay(_part: &str, _case: &Value, _inv: bool) -> Result<(), String> { Err("not implemented".into()) }
+//! C10 — the controller follows the documented protocol for every sign reply (reference conversation);
+//! C11 — controller invariants judged on the transcript alone. Same exploration, two oracles.
+
+use std::cell::RefCell;
+use std::rc::Rc;
+
+use flipdot::{Address, Page, PageFlipStyle, Sign, SignError};
+use flipdot_core::{Message, SignBus};
+use proptest::prelude::*;
+use serde::{Deserialize, Serialize};
+use serde_json::{json, Value};
+
+use crate::engine::{catch, h64, par_range, run_generated, Ctx, Stats};
+use crate::oracle::controller::{invariants, reference, OpKind, Outcome, Reply, Task};
+use crate::oracle::page::total_len;
+use crate::oracle::vsign::*;
+use crate::repr::M;
+
+pub const RULE_C10: &str = "reply scripts over a 42-symbol alphabet (13 state reports x own/foreign address, 6 acknowledgements x own/foreign address - which includes wrong-operation acknowledgements -, no reply, goodbye, an unknown frame, bus error) enumerated exhaustively by systematic re-execution: the operation is re-run on a fresh scripted bus and the script is extended by every symbol whenever the controller asks for one more reply, to the natural end of configure, configure_if_needed, send_pages, show_loaded_page, load_next_page and shut_down (page-switch polling cut at depth 7 quick / 9 thorough), for several sign types and (own, foreign) address pairs; plus proptest random scripts (70 % 'continue' replies) for larger sign types and 1-2 page lists. At every node the emitted message sequence and - at leaves - the outcome class are compared with a reference controller simulation. Non-trivial = a script with at least one reply that is not the happy-path reply; distinct by hash of (operation, configuration, script)";
+pub const RULE_C11: &str = "the same conversations as C10 (exhaustive reply-script trees by systematic re-execution, random scripts, several addresses and sign types) judged without the reference conversation, by invariants on the transcript: I1 success only after this sign's 'received' report concluded the last transfer attempt, I2 fail-stop after a bus error or a reply the protocol does not allow at that point (with the matching error class), I3 at most three transfer attempts and retries only after this sign's 'failed' report, I4 every emitted addressed message carries the controller's address, I5 reports from another address are never taken as this sign's. Non-trivial = a script with at least one non-happy-path reply; distinct by hash";
+pub const ASSUMPTIONS_C10: &[&str] = &["the reference controller in oracle/controller.rs is a correct reading of the documented protocol (doc comments of configure, configure_if_needed, send_pages, load_next_page, show_loaded_page, shut_down and of the Message kinds)"];
+pub const ASSUMPTIONS_C11: &[&str] = &["the invariants are keyed on local context only (the previous exchange), so they do not depend on the reference conversation of C10"];
+
+// ---------------------------------------------------------------------------------------
+// scripted bus
+
+#[derive(Serialize, Deserialize, Debug, Clone, PartialEq, Eq, Hash)]
+pub enum Choice {
+    /// an explicit reply
+    Symbol(Reply),
+    /// the reply that lets the protocol continue, variant selects among the alternatives at a state query
+    Happy(u8),
+}
+
+#[derive(Clone, Copy, PartialEq, Eq)]
+enum OnExhausted {
+    /// flag the exhaustion and fail the exchange (systematic re-execution extends the script here)
+    Stop,
+    /// keep answering with the default happy reply
+    Happy,
+}
+
+struct ScriptBus {
+    own: u16,
+    choices: Vec<Choice>,
+    on_exhausted: OnExhausted,
+    transcript: Vec<(M, Reply)>,
+    exhausted_at: Option<usize>,
+    calls: usize,
+    last_transfer_op: Option<u8>,
+}
+
+fn happy_reply(own: u16, m: &M, variant: u8, last_transfer_op: Option<u8>, after_count: bool) -> Reply {
+    match m {
+        M::Req(_, op) => Reply::Msg(M::Ack(own, *op)),
+        M::Hello(_) => Reply::Msg(M::Report(own, [S_UNCONFIGURED, S_READY_TO_RESET, S_CONFIG_RECEIVED, S_PAGE_LOADED][variant as usize % 4])),
+        M::Query(_) => {
+            if after_count {
+                let (succ, failed) = if last_transfer_op == Some(O_RECEIVE_CONFIG) {
+                    (S_CONFIG_RECEIVED, S_CONFIG_FAILED)
+                } else {
+                    (S_PIXELS_RECEIVED, S_PIXELS_FAILED)
+                };
+                Reply::Msg(M::Report(own, if variant % 3 == 1 { failed } else { succ }))
+            } else {
+                let s = [S_PAGE_LOADED, S_PAGE_SHOWN, S_PAGE_SHOW_IN_PROGRESS, S_PAGE_LOAD_IN_PROGRESS, S_SHOWING_PAGES][variant as usize % 5];
+                Reply::Msg(M::Report(own, s))
+            }
+        }
+        _ => Reply::None,
+    }
+}
+
+impl SignBus for ScriptBus {
+    fn process_message<'a>(&mut self, message: Message<'_>) -> Result<Option<Message<'a>>, Box<dyn std::error::Error + Send + Sync>> {
+        let m = M::from_message(&message);
+        let idx = self.calls;
+        self.calls += 1;
+        if self.calls > 3_000 {
+            self.transcript.push((m, Reply::BusError));
+            return Err("harness call cap reached (controller does not terminate)".into());
+        }
+        let after_count = matches!(self.transcript.last(), Some((M::Count(_), _)));
+        if let M::Req(_, o) = &m {
+            if *o == O_RECEIVE_CONFIG || *o == O_RECEIVE_PIXELS {
+                self.last_transfer_op = Some(*o);
+            }
+        }
+        let reply = match self.choices.get(idx) {
+            Some(Choice::Symbol(r)) => r.clone(),
+            Some(Choice::Happy(v)) => happy_reply(self.own, &m, *v, self.last_transfer_op, after_count),
+            None => match self.on_exhausted {
+                // default continuation: transfers succeed, page switching ends at once (showing-pages)
+                OnExhausted::Happy => happy_reply(self.own, &m, if after_count { 0 } else { 4 }, self.last_transfer_op, after_count),
+                OnExhausted::Stop => {
+                    if self.exhausted_at.is_none() {
+                        self.exhausted_at = Some(idx);
+                    }
+                    self.transcript.push((m, Reply::BusError));
+                    return Err("script exhausted".into());
+                }
+            },
+        };
+        self.transcript.push((m, reply.clone()));
+        match reply {
+            Reply::Msg(r) => Ok(Some(r.to_message())),
+            Reply::None => Ok(None),
+            Reply::BusError => Err("scripted bus error".into()),
+        }
+    }
+}
+
+// ---------------------------------------------------------------------------------------
+
+#[derive(Serialize, Deserialize, Debug, Clone, PartialEq, Eq, Hash)]
+pub struct ConvCase {
+    pub op: OpKind,
+    pub addr: u16,
+    /// index into oracle::vsign::TYPES
+    pub sign_type: u8,
+    pub pages: u8,
+    pub page_seed: u64,
+    pub script: Vec<Choice>,
+}
+
+fn make_pages(c: &ConvCase) -> Vec<Vec<u8>> {
+    let (_, _, _, w, h) = TYPES[c.sign_type as usize % 11];
+    (0..c.pages)
+        .map(|p| (0..total_len(w, h)).map(|i| h64(&(c.page_seed, p, i as u64)) as u8).collect())
+        .collect()
+}
+
+pub struct Run {
+    pub transcript: Vec<(M, Reply)>,
+    pub exhausted: bool,
+    pub outcome: Option<Outcome>,
+    pub calls_after_exhaustion: usize,
+}
+
+fn execute(c: &ConvCase, stop_when_exhausted: bool) -> Result<Run, String> {
+    let (sign_type, _, _, w, h) = TYPES[c.sign_type as usize % 11];
+    let bus = Rc::new(RefCell::new(ScriptBus {
+        own: c.addr,
+        choices: c.script.clone(),
+        on_exhausted: if stop_when_exhausted { OnExhausted::Stop } else { OnExhausted::Happy },
+        transcript: vec![],
+        exhausted_at: None,
+        calls: 0,
+        last_transfer_op: None,
+    }));
+    let sign = Sign::new(bus.clone(), Address(c.addr), sign_type);
+    let page_bytes = make_pages(c);
+    let pages: Vec<Page<'_>> = page_bytes.iter().map(|b| Page::from_bytes(w, h, &b[..]).expect("page of the sign's size")).collect();
+    let result: Result<Outcome, SignError> = catch(|| match c.op {
+        OpKind::Configure => sign.configure().map(|_| Outcome::Ok),
+        OpKind::ConfigureIfNeeded => sign.configure_if_needed().map(|_| Outcome::Ok),
+        OpKind::SendPages => sign.send_pages(&pages).map(|s| if s == PageFlipStyle::Automatic { Outcome::OkAutomatic } else { Outcome::OkManual }),
+        OpKind::ShowLoadedPage => sign.show_loaded_page().map(|_| Outcome::Ok),
+        OpKind::LoadNextPage => sign.load_next_page().map(|_| Outcome::Ok),
+        OpKind::ShutDown => sign.shut_down().map(|_| Outcome::Ok),
+    })
+    .map_err(|p| format!("the controller panicked: {p}"))?;
+    let b = bus.borrow();
+    let outcome = match result {
+        Ok(o) => o,
+        Err(SignError::Bus { .. }) => Outcome::ErrBus,
+        Err(SignError::UnexpectedResponse { .. }) => Outcome::ErrUnexpected,
+        Err(_) => Outcome::ErrUnexpected,
+    };
+    let exhausted = b.exhausted_at.is_some();
+    let calls_after = b.exhausted_at.map(|i| b.calls - i - 1).unwrap_or(0);
+    Ok(Run { transcript: b.transcript.clone(), exhausted, outcome: if exhausted { None } else { Some(outcome) }, calls_after_exhaustion: calls_after })
+}
+
+/// Evaluate one conversation under the chosen oracle.
+fn judge(c: &ConvCase, run: &Run, invariants_only: bool) -> Result<(), String> {
+    let n = run.transcript.len();
+    let show = |k: usize| -> String {
+        run.transcript
+            .iter()
+            .take(k)
+            .map(|(m, r)| format!("{} -> {}", m.short(), r.short()))
+            .collect::<Vec<_>>()
+            .join("; ")
+    };
+    if run.exhausted && run.calls_after_exhaustion > 0 {
+        return Err(format!(
+            "the controller kept sending after the bus had failed ({} further messages); conversation: {}",
+            run.calls_after_exhaustion,
+            show(n)
+        ));
+    }
+    // the replies the controller actually saw (the synthetic failure that marks script exhaustion is not one of them)
+    let seen = if run.exhausted { n - 1 } else { n };
+    let replies: Vec<Reply> = run.transcript[..seen].iter().map(|(_, r)| r.clone()).collect();
+    let emitted: Vec<M> = run.transcript.iter().map(|(m, _)| m.clone()).collect();
+    if invariants_only {
+        return invariants(c.op, c.addr, &run.transcript[..seen], run.outcome).map_err(|e| format!("{e}; conversation: {}", show(n)));
+    }
+    let block = BLOCKS[c.sign_type as usize % 11];
+    let pages = make_pages(c);
+    let task = Task { op: c.op, addr: c.addr, block: &block, pages: &pages };
+    let (want_msgs, want_out) = reference(&task, &replies);
+    if emitted != want_msgs {
+        let k = emitted.iter().zip(want_msgs.iter()).take_while(|(a, b)| a == b).count();
+        return Err(format!(
+            "message {k} differs: the controller sent {} but the documented protocol prescribes {} after: {}",
+            emitted.get(k).map(|m| m.short()).unwrap_or_else(|| "nothing more".into()),
+            want_msgs.get(k).map(|m| m.short()).unwrap_or_else(|| "nothing more".into()),
+            show(k)
+        ));
+    }
+    if run.outcome != want_out {
+        return Err(format!(
+            "outcome {:?} but the documented protocol prescribes {:?} after: {}",
+            run.outcome,
+            want_out,
+            show(n)
+        ));
+    }
+    Ok(())
+}
+
+fn has_deviation(own: u16, transcript: &[(M, Reply)]) -> bool {
+    let mut last_op = None;
+    for (i, (m, r)) in transcript.iter().enumerate() {
+        if let M::Req(_, o) = m {
+            if *o == O_RECEIVE_CONFIG || *o == O_RECEIVE_PIXELS {
+                last_op = Some(*o);
+            }
+        }
+        let after_count = i > 0 && matches!(transcript[i - 1].0, M::Count(_));
+        let happy: Vec<Reply> = if matches!(m, M::Query(_)) && !after_count {
+            (0..5).map(|v| happy_reply(own, m, v, last_op, after_count)).collect()
+        } else {
+            vec![happy_reply(own, m, 0, last_op, after_count)]
+        };
+        if !happy.contains(r) {
+            return true;
+        }
+    }
+    false
+}
+
+pub fn check_conversation(c: &ConvCase, invariants_only: bool, st: &mut Stats) -> Result<(), String> {
+    let run = execute(c, false)?;
+    st.eval();
+    judge(c, &run, invariants_only)?;
+    // non-trivial: at least one reply differs from the default happy reply
+    let nontrivial = has_deviation(c.addr, &run.transcript);
+    if nontrivial {
+        st.nontrivial(h64(c));
+        st.class("script:with-deviation");
+    } else {
+        st.class("script:happy-path");
+    }
+    st.class(&format!("outcome:{:?}", run.outcome.unwrap()));
+    st.class(&format!("op:{:?}", c.op));
+    if st.want_sample() && nontrivial && run.transcript.len() <= 14 && run.transcript.len() >= 4 {
+        st.sample(json!({"op": format!("{:?}", c.op), "addr": c.addr, "type": format!("{:?}", TYPES[c.sign_type as usize % 11].0),
+            "conversation": run.transcript.iter().map(|(m, r)| format!("{} -> {}", m.short(), r.short())).collect::<Vec<_>>(), "outcome": format!("{:?}", run.outcome.unwrap())}));
+    }
+    Ok(())
+}
+
+// ---------------------------------------------------------------------------------------
+// systematic re-execution
+
+pub fn alphabet(own: u16, foreign: u16) -> Vec<Reply> {
+    let mut v = vec![];
+    for a in [own, foreign] {
+        for s in 0..13u8 {
+            v.push(Reply::Msg(M::Report(a, s)));
+        }
+        for o in 0..6u8 {
+            v.push(Reply::Msg(M::Ack(a, o)));
+        }
+    }
+    v.push(Reply::None);
+    v.push(Reply::Msg(M::Goodbye(own)));
+    v.push(Reply::Msg(M::Unknown { addr: own, ty: 0x4, data: vec![0x07, 0x00] }));
+    v.push(Reply::BusError);
+    v
+}
+
+struct TreeStats {
+    nodes: u64,
+    leaves: u64,
+    truncated: u64,
+    max_depth: usize,
+}
+
+fn explore(base: &ConvCase, alpha: &[Reply], depth_cap: usize, invariants_only: bool, st: &mut Stats, ts: &mut TreeStats, script: &mut Vec<Choice>) -> Result<(), (ConvCase, String)> {
+    let c = ConvCase { script: script.clone(), ..base.clone() };
+    let run = execute(&c, true).map_err(|e| (c.clone(), e))?;
+    st.eval();
+    ts.nodes += 1;
+    ts.max_depth = ts.max_depth.max(script.len());
+    judge(&c, &run, invariants_only).map_err(|e| (c.clone(), e))?;
+    if !run.exhausted {
+        ts.leaves += 1;
+        if has_deviation(c.addr, &run.transcript) {
+            st.nontrivial_enumerated(1);
+        }
+        let o = run.outcome.unwrap();
+        st.class(match o {
+            Outcome::Ok => "leaf:Ok",
+            Outcome::OkAutomatic => "leaf:OkAutomatic",
+            Outcome::OkManual => "leaf:OkManual",
+            Outcome::ErrUnexpected => "leaf:ErrUnexpected",
+            Outcome::ErrBus => "leaf:ErrBus",
+        });
+        if st.want_sample() && script.len() >= 5 && o != Outcome::ErrBus {
+            st.sample(json!({"op": format!("{:?}", c.op), "addr": c.addr, "script": run.transcript.iter().map(|(m, r)| format!("{} -> {}", m.short(), r.short())).collect::<Vec<_>>(), "outcome": format!("{o:?}")}));
+        }
+        return Ok(());
+    }
+    if script.len() >= depth_cap {
+        ts.truncated += 1;
+        return Ok(());
+    }
+    for sym in alpha {
+        script.push(Choice::Symbol(sym.clone()));
+        explore(base, alpha, depth_cap, invariants_only, st, ts, script)?;
+        script.pop();
+    }
+    Ok(())
+}
+
+fn run_tree(ctx: &Ctx, invariants_only: bool) {
+    let thorough = ctx.tier == crate::engine::Tier::Thorough;
+    // (operation, sign type index, pages, depth cap)
+    let mut jobs: Vec<(OpKind, u8, u8, usize, u16, u16)> = vec![];
+    let addr_pairs: Vec<(u16, u16)> = if thorough {
+        vec![(3, 2), (0, 1), (0x7F, 0x17F), (0x1234, 0x1235), (0xFFFF, 0xFFFE), (0x0100, 0x0001), (5, 0)]
+    } else {
+        vec![(3, 2), (0xFFFF, 0xFEFF), (0x1234, 0), (0, 1), (0x7F, 0x17F)]
+    };
+    let switch_depth = if thorough { 9 } else { 7 };
+    for &(own, foreign) in &addr_pairs {
+        for t in if thorough { (0..11).collect::<Vec<u8>>() } else { vec![5u8, 10] } {
+            jobs.push((OpKind::Configure, t, 0, 64, own, foreign));
+        }
+        jobs.push((OpKind::ConfigureIfNeeded, 5, 0, 64, own, foreign));
+        // 30x7 (48-byte page, 3 chunks) and 23x10 (64 bytes, 4 chunks)
+        jobs.push((OpKind::SendPages, 5, 0, 64, own, foreign));
+        jobs.push((OpKind::SendPages, 5, 1, 64, own, foreign));
+        jobs.push((OpKind::SendPages, 4, 1, 64, own, foreign));
+        if thorough {
+            jobs.push((OpKind::SendPages, 5, 2, 64, own, foreign));
+        }
+        jobs.push((OpKind::ShowLoadedPage, 5, 0, switch_depth, own, foreign));
+        jobs.push((OpKind::LoadNextPage, 5, 0, switch_depth, own, foreign));
+        jobs.push((OpKind::ShutDown, 5, 0, 64, own, foreign));
+    }
+    // split each job by its first reply symbol so that the work spreads over the workers
+    let mut units: Vec<(usize, usize)> = vec![];
+    for (j, _) in jobs.iter().enumerate() {
+        for s in 0..42 {
+            units.push((j, s));
+        }
+    }
+    let totals = std::sync::Mutex::new((0u64, 0u64, 0u64, 0usize));
+    par_range(ctx, "reply-script-tree", units.len() as u64, |u, st| {
+        let (j, s) = units[u as usize];
+        let (op, t, pages, cap, own, foreign) = jobs[j];
+        let alpha = alphabet(own, foreign);
+        let base = ConvCase { op, addr: own, sign_type: t, pages, page_seed: 7 + j as u64, script: vec![] };
+        let mut ts = TreeStats { nodes: 0, leaves: 0, truncated: 0, max_depth: 0 };
+        let mut script = vec![Choice::Symbol(alpha[s].clone())];
+        if s == 0 {
+            // the root node (empty script) belongs to the first unit
+            let c0 = ConvCase { script: vec![], ..base.clone() };
+            let run = execute(&c0, true).map_err(|e| (serde_json::to_value(&c0).unwrap(), e))?;
+            judge(&c0, &run, invariants_only).map_err(|e| (serde_json::to_value(&c0).unwrap(), e))?;
+        }
+        explore(&base, &alpha, cap, invariants_only, st, &mut ts, &mut script).map_err(|(c, e)| (serde_json::to_value(&c).unwrap(), e))?;
+        let mut g = totals.lock().unwrap();
+        g.0 += ts.nodes;
+        g.1 += ts.leaves;
+        g.2 += ts.truncated;
+        g.3 = g.3.max(ts.max_depth);
+        Ok(())
+    });
+    let g = totals.lock().unwrap();
+    ctx.part_done(
+        "reply-script-tree",
+        g.2 == 0,
+        json!({"jobs": jobs.len(), "alphabet": 42, "nodes": g.0, "complete_conversations": g.1, "truncated_at_depth_cap": g.2, "max_script_length": g.3,
+               "page_switch_depth_cap": switch_depth, "address_pairs": addr_pairs}),
+    );
+}
+
+// ---------------------------------------------------------------------------------------
+// random scripts
+
+fn choice_strategy(own: u16) -> impl Strategy<Value = Choice> {
+    let foreign = proptest::sample::select(vec![own.wrapping_add(1), own.wrapping_sub(1), own ^ 0x0100, 0u16, own.swap_bytes() ^ 1]);
+    prop_oneof![
+        14 => (0u8..6).prop_map(Choice::Happy),
+        1 => (0u8..13).prop_map(move |s| Choice::Symbol(Reply::Msg(M::Report(own, s)))),
+        1 => (foreign.clone(), 0u8..13).prop_map(|(a, s)| Choice::Symbol(Reply::Msg(M::Report(a, s)))),
+        1 => (0u8..6).prop_map(move |o| Choice::Symbol(Reply::Msg(M::Ack(own, o)))),
+        1 => (foreign, 0u8..6).prop_map(|(a, o)| Choice::Symbol(Reply::Msg(M::Ack(a, o)))),
+        1 => Just(Choice::Symbol(Reply::None)),
+        1 => Just(Choice::Symbol(Reply::BusError)),
+    ]
+}
+
+fn conv_strategy() -> impl Strategy<Value = ConvCase> {
+    (
+        proptest::sample::select(vec![OpKind::Configure, OpKind::ConfigureIfNeeded, OpKind::SendPages, OpKind::SendPages, OpKind::ShowLoadedPage, OpKind::LoadNextPage, OpKind::ShutDown]),
+        prop_oneof![3 => proptest::sample::select(vec![0u16, 3, 0x7F, 0x1234, 0xFFFF]), 2 => any::<u16>()],
+        0u8..11,
+        0u8..=2,
+        any::<u64>(),
+    )
+        .prop_flat_map(|(op, addr, sign_type, pages, page_seed)| {
+            (Just((op, addr, sign_type, pages, page_seed)), proptest::collection::vec(choice_strategy(addr), 0..120))
+        })
+        .prop_map(|((op, addr, sign_type, pages, page_seed), script)| ConvCase { op, addr, sign_type, pages, page_seed, script })
+}
+
+pub fn run(ctx: &Ctx, invariants_only: bool) {
+    run_tree(ctx, invariants_only);
+    run_generated(ctx, "random-scripts", ctx.tier.pick(60_000, 2_000_000), conv_strategy, |c, st| check_conversation(c, invariants_only, st));
+}
+
+pub fn replay(part: &str, case: &Value, invariants_only: bool) -> Result<(), String> {
+    let c: ConvCase = serde_json::from_value(case.clone()).map_err(|e| format!("bad case: {e}"))?;
+    if part == "reply-script-tree" {
+        // node of the systematic tree: exhaustion stops the conversation
+        let run = execute(&c, true)?;
+        return judge(&c, &run, invariants_only);
+    }
+    check_conversation(&c, invariants_only, &mut Stats::new())
+}
